@@ -219,7 +219,7 @@ def strip(doc, remove):
 # histories
 # ----------------------------------------------------------------------
 
-def plan_history(rng, ops, remove, style):
+def plan_history(rng, ops, remove, style, frontends=("writer",)):
     """Partition ops into commits. Returns list of commit dicts."""
     commits = []
     cur = []
@@ -258,6 +258,10 @@ def plan_history(rng, ops, remove, style):
         c["blocklimit"] = rng.choice([1, 2, 3, 16, 128])
         c["compound"] = rng.random() < 0.6
         c["picks"] = [rng.random() < 0.5 for _ in range(5)]
+        c["frontend"] = "writer"
+        if len(frontends) > 1 and all(op[0] == "group" for op in c["ops"]) and rng.random() < 0.12:
+            c["frontend"] = rng.choice(frontends[1:])
+            c["batch"] = rng.choice([1, 2, 3, 100])
     if remove:
         commits.append({"ops": [("remove_field", remove)], "merge": rng.choice(["nomerge", "default", "optimize", "optimize"]),
                         "blocklimit": 128, "compound": True, "picks": [True]})
@@ -332,6 +336,7 @@ def model_lengths(doc):
 def run_history(ctx, st, schema, commits, info):
     """Executes the commits on a fresh index in `st`. info collects layout facts."""
     from whoosh.codec.whoosh3 import W3Codec
+    from whoosh.writing import BufferedWriter
     ix = st.create_index(schema)
     sig = []
     prev = {}
@@ -344,10 +349,6 @@ def run_history(ctx, st, schema, commits, info):
         before = ix._segments()
         before_ids = set(s.segment_id() for s in before)
         had_del = any(s.has_deletions() for s in before)
-        w = ix.writer(codec=W3Codec(blocklimit=c["blocklimit"]), compound=c["compound"])
-        for op in c["ops"]:
-            apply_op(w, op)
-        had_del_now = any(s.has_deletions() for s in w.segments)
         kw = {}
         merged_flag = []
         if c["merge"] == "nomerge":
@@ -356,7 +357,25 @@ def run_history(ctx, st, schema, commits, info):
             kw = {"optimize": True}
         elif c["merge"] == "custom":
             kw = {"mergetype": custom_policy(c["picks"], merged_flag)}
-        w.commit(**kw)
+        fe = c.get("frontend", "writer")
+        ctx.count("c06.frontend.%s" % fe)
+        wargs = {"codec": W3Codec(blocklimit=c["blocklimit"]), "compound": c["compound"]}
+        if fe == "buffered":
+            # adds only; the limit is never reached, so the buffered documents are flushed once, through add_reader()
+            w = BufferedWriter(ix, period=None, limit=10 ** 6, writerargs=wargs, commitargs=kw)
+            for op in c["ops"]:
+                apply_op(w, op)
+            had_del_now = any(s.has_deletions() for s in w.writer.segments)
+            w.close()
+        else:
+            if fe in ("mp", "mp-multi"):
+                w = ix.writer(procs=2, batchsize=c["batch"], multisegment=(fe == "mp-multi"), **wargs)
+            else:
+                w = ix.writer(**wargs)
+            for op in c["ops"]:
+                apply_op(w, op)
+            had_del_now = any(s.has_deletions() for s in w.segments)
+            w.commit(**kw)
         after = ix._segments()
         after_ids = set(s.segment_id() for s in after)
         gone = before_ids - after_ids
@@ -368,7 +387,7 @@ def run_history(ctx, st, schema, commits, info):
                 info["merges_with_deletions"] += 1
                 ctx.count("c06.merge.with_deletions")
         ctx.count("c06.commits")
-        sig.append((c["merge"], min(len(c["ops"]), 4), merged))
+        sig.append((c["merge"], min(len(c["ops"]), 4), merged, fe))
         # which documents were physically rewritten by a merge (their stored length is the one-byte approximation)
         fresh = set()
         for op in c["ops"]:
@@ -377,7 +396,11 @@ def run_history(ctx, st, schema, commits, info):
         now, first = seg_map(ix)
         for k, sid in now.items():
             if k in fresh:
-                info["rewritten"].discard(k)
+                # BufferedWriter and the merging MpWriter copy even new documents through write_per_doc()
+                if fe in ("buffered", "mp"):
+                    info["rewritten"].add(k)
+                else:
+                    info["rewritten"].discard(k)
             elif k in prev and prev[k] != sid:
                 info["rewritten"].add(k)
         prev = now
@@ -631,10 +654,14 @@ def one_case(ctx, rng, idx):
         shapes = []
         for h in range(nh):
             style = rng.choice(["tiny", "mixed", "mixed", "bulk"])
-            commits = plan_history(rng, ops, remove, style)
             kind = rng.choice(["ram", "ram", "file", "mmap"])
+            fes = ("writer",)
+            if not opts["body_spelling"]:
+                # other front-ends only without a separate spelling word list (its doc-0 model assumes one new segment)
+                fes = ("writer", "buffered") if kind == "ram" else ("writer", "buffered", "mp", "mp-multi")
+            commits = plan_history(rng, ops, remove, style, fes)
             info = {"merges": 0, "merges_with_deletions": 0}
-            w = dict(base_w, history=[{"merge": c["merge"], "blocklimit": c["blocklimit"], "compound": c["compound"],
+            w = dict(base_w, history=[{"merge": c["merge"], "blocklimit": c["blocklimit"], "compound": c["compound"], "frontend": c.get("frontend", "writer"),
                                        "ops": [(op[0], op[1] if op[0] != "group" else [d["id"] for d in op[2]]) for op in c["ops"]]}
                                       for c in commits][:30], storage=kind, style=style)
             obs = {}
@@ -654,7 +681,7 @@ def one_case(ctx, rng, idx):
                 ctx.count("c06.final.with_deletions")
             if info["merges"]:
                 ctx.count("c06.histories.merged")
-            if any(c["merge"] == "default" and m for (c, (_, _, m)) in zip(commits, info["sig"])):
+            if any(c["merge"] == "default" and m for (c, (_, _, m, _fe)) in zip(commits, info["sig"])):
                 ctx.count("c06.histories.merge_small_merged")
             nontrivial = len(commits) >= 2 and (obs["segments"] > 1 or info["merges"] > 0)
             shapes.append((info["sig"], obs["segments"], obs["has_deletions"], nontrivial))
